@@ -638,8 +638,7 @@ Proof.
   pose proof (reachable_inv s Hr) as HI.
   assert (reachable s') as Hr' by (eapply reach_step; [exact Hr|exact Hl|rewrite He; exact Hstep]).
   pose proof (reachable_inv s' Hr') as HI'.
-  pose proof (pick_serial_legal s i Hl) as Hp.
-  destruct (match i_bserial i with Some b => (b, next s) | None => (4294967296 + next s, next s + 1) end) as [b nxt].
+  destruct (pick_serial_legal s i (proj1 (iv_cb _ _ _ _ _ HI)) Hl) as (b & nxt & Hp & _).
   set (cst := call_state s c cs serial k sv b nxt callee).
   pose proof (call_dead_callee_handler s c cs x serial sc fn fver v (i_fresh i) (i_bserial i) k sv callee ccs b nxt
                 Hc Hx Hs Ho Hcc Hdead Hp Hser) as Hh. fold cst in Hh.
